@@ -1,4 +1,4 @@
-"""Expression families for C16: members of one family print identically (str) but differ."""
+"""Expression families for C16: members of one family collide in some cache key (identical str, or identical Python hash) but differ."""
 from __future__ import annotations
 
 import sympy as sp
@@ -26,6 +26,13 @@ def registry() -> dict[str, sp.Expr]:
     for k in range(2):
         t = sp.Symbol("t", real=True) if k == 0 else sp.Symbol("t", positive=True)
         out[f"assume-sum:{k}"] = PoolSum(Kallen(t, sp.Symbol("i"), 1), (sp.Symbol("i"), (1, 2, 3)))
+    # family "pyhash": unequal expressions (different strings too) with the same *Python* hash for every
+    # PYTHONHASHSEED: CPython has hash(-1) == hash(-2), so trees differing only by Integer(-1) / Integer(-2) collide
+    xr, yr = sp.symbols("x y", real=True)
+    for tag, v in (("m1", -1), ("m2", -2)):
+        out[f"pyhash-kallen:{tag}"] = Kallen(xr, yr, v)
+        out[f"pyhash-q2:{tag}"] = D.BreakupMomentumSquared((xr + v) ** 2 + 5, yr, yr / 2)
+        out[f"pyhash-sum:{tag}"] = PoolSum(Kallen(xr, sp.Symbol("i"), v) + v * yr, (sp.Symbol("i"), (1, 2)))
     # controls: genuinely different strings
     a, b = sp.symbols("a b", real=True)
     out["control:kibble"] = Kibble(a, b, 3 - a - b, 2, sp.Rational(1, 2), sp.Rational(1, 3), sp.Rational(1, 5))
